@@ -322,6 +322,46 @@ fn install() {
     clock_bound_shm::verif::install(&S_HOOKS);
 }
 
+/// The one worker death that can be provoked from outside, through the release binary: the segment cannot be
+/// created (its directory's name is taken by a regular file), so the writer thread dies at start-up - with no
+/// chronyd, with one that answers at once and with one that answers 1.3 s late. The process must be gone
+/// within a few seconds.
+fn end_to_end(ctx: &Ctx, total: &mut Tally) -> Value {
+    use crate::procmc::e2e::{self, Scenario, ID_OTHER};
+    let bin = e2e::binary(ctx);
+    if !std::path::Path::new(&bin).exists() {
+        return json!({"skipped": format!("release binary {bin} not built")});
+    }
+    let scenarios = vec![
+        Scenario { name: "segment uncreatable, no chronyd", block_directory: true, observe_ms: 9000, ..Scenario::blank() },
+        Scenario { name: "segment uncreatable, chronyd answers at once", block_directory: true, chronyd: Some((ID_OTHER, 0)), observe_ms: 9000, ..Scenario::blank() },
+        Scenario { name: "segment uncreatable, chronyd answers 1.3 s late", block_directory: true, chronyd: Some((ID_OTHER, 0)), chronyd_delay_ms: 1300, observe_ms: 12000, ..Scenario::blank() },
+    ];
+    let results: Vec<Result<Value, String>> = std::thread::scope(|s| {
+        let hs: Vec<_> = scenarios.iter().map(|sc| { let bin = bin.clone(); s.spawn(move || e2e::run_scenario(&bin, sc)) }).collect();
+        hs.into_iter().map(|h| h.join().unwrap_or_else(|_| Err("scenario thread panicked".into()))).collect()
+    });
+    let mut report = vec![];
+    for (sc, r) in scenarios.iter().zip(results) {
+        let v = match r {
+            Ok(v) => v,
+            Err(e) => machinery_failure(&format!("C15 end-to-end scenario '{}': {e}", sc.name)),
+        };
+        if let Some(u) = v["unavailable"].as_str() {
+            return json!({"skipped": format!("the sandbox does not allow it: {u}")});
+        }
+        let doc = json!({"check": "C15", "phase": "end to end through the release binary", "scenario": sc.name, "observed": v});
+        let limit_ms = if sc.chronyd_delay_ms > 0 { 9000 } else { 6000 };
+        match v["daemon_exited_after_ms"].as_u64() {
+            Some(t) if t <= limit_ms => {}
+            Some(t) => total.add("C15:e2e:exits-late", format!("{}: the daemon process exited only after {t} ms", sc.name), doc.clone()),
+            None => total.add("C15:e2e:does-not-exit", format!("{}: the writer thread cannot start, yet the daemon process is still there after {} ms", sc.name, sc.observe_ms), doc.clone()),
+        }
+        report.push(json!({"scenario": sc.name, "daemon_exited_after_ms": v["daemon_exited_after_ms"], "exit_status": v["daemon_exit_status"]}));
+    }
+    json!({"scenarios": report})
+}
+
 pub fn run(ctx: &Ctx) -> i32 {
     crate::common::report::quiet_panics();
     install();
@@ -436,6 +476,7 @@ pub fn run(ctx: &Ctx) -> i32 {
         machinery_failure("no execution with a fired fault was explored");
     }
     let sample = run_once(&scenarios[0], vec![], &base, h, true);
+    let e2e = end_to_end(ctx, &mut total);
     let coverage = cov(vec![
         ("states", json!(total.steps)),
         ("transitions", json!(total.steps)),
@@ -456,6 +497,7 @@ pub fn run(ctx: &Ctx) -> i32 {
         ("max_exit_latency_virtual_s", json!(total.max_latency_ns as f64 / 1e9)),
         ("terminal_outcomes", json!(total.outcomes)),
         ("violation_counts_by_class", json!(total.counts)),
+        ("end_to_end_through_the_release_binary", e2e),
         ("capped", json!(total.capped)),
         ("exhaustive", json!(!total.capped)),
         ("states_note", json!("stateless search: 'states' counts scheduling points executed (no state hashing)")),
